@@ -248,7 +248,8 @@ CHECKS["C02"] = dict(
     floor=T(15000, 300000), nt_floor=T(4000, 80000),
     assumptions=["indexed formats use consistent palettes (store(fetch(i)) == i), as every real caller's do; with an inconsistent palette even the DST operator is observable",
                  "undefined bits (padding bits of affected pixels; image alpha bits / map colour bits under a destination alpha map) are masked",
-                 "each worker is a fresh process: the implementation chain is fixed at library load"],
+                 "each worker is a fresh process: the implementation chain is fixed at library load",
+                 "dithered destinations are not generated: dithering is not in the statement's quantifier and is applied by the general floating-point path only (special-case paths never dither, by design)"],
 )
 
 CHECKS["C03"] = dict(
